@@ -7,6 +7,8 @@ from sa.exc import ExcAnalysis
 from .common import device_touching
 from .c06 import _strip
 from .c11 import _parents, catching_handler
+from sa.canon import canon_list, canon_list_text, fold_consts
+from sa.decide import Walker, completions, values_at, completed_on_all_paths
 
 TECHNIQUE = ("effect confinement (which attributes of the transaction the unsign path may write), provenance "
              "expansion of the rebuilt script and of the value relayed to the device, dominance of every device "
@@ -24,99 +26,188 @@ EXPLANATION = (
 )
 
 
+def _single_def(PV, fn, cls, name, at):
+    rds = PV.reaching(fn, cls, name, at)
+    return rds[0] if len(rds) == 1 else None
+
+
+def _fresh_list(PV, fn, cls, name, at):
+    """Is local `name` (at node) only ever a list built inside this function (display, comprehension, list(..))?"""
+    ds = PV.defs(fn, cls).get(name, [])
+    if not ds or name in fn.params:
+        return False
+    for d in ds:
+        if d.kind == "aug":
+            continue
+        v = d.value
+        if not (isinstance(v, (ast.List, ast.ListComp)) or (isinstance(v, ast.Call) and isinstance(v.func, ast.Name) and v.func.id == "list")
+                or (isinstance(v, ast.BinOp) and canon_list(v) is not None)):
+            return False
+    return True
+
+
+def scriptsig_rules(run, PV):
+    """R1/R2 for comm.bitcoin (shared with C01 under a prefix)."""
+    P, A = run.P, run.A
+    un = P.func("comm.bitcoin._unsign_tx")
+    cl = P.func("comm.bitcoin._clear_all_but_last_op_from_scriptsig")
+    gu = P.func("comm.bitcoin.get_unsigned_tx")
+    ds = P.func("comm.bitcoin._deserialize_tx")
+
+    # ---------------------------------------------------------------- R1
+    run.rule("R1", "Effect confinement: on the unsign path the only attribute written on the deserialised transaction is .vin, whose "
+             "new value is one _clear_all_but_last_op_from_scriptsig(input) per element of the old tx.vin, in order (list(map(..)), a "
+             "comprehension or an append loop are the same thing); _unsign_tx returns that transaction object, obtained from "
+             "_deserialize_tx(<its parameter>); the clearing function writes only .scriptSig of a copy obtained with "
+             "bitcoin.core.CMutableTxIn.from_txin(<its parameter>) (keeps outpoint and sequence) and returns that copy; only lists "
+             "created locally are mutated; _deserialize_tx = bitcoin.core.CMutableTransaction.deserialize(bytes.fromhex(raw)).")
+
+    def effects(fn):
+        """[(kind, target AST, value AST|None, stmt)] for attribute/subscript stores and mutating calls"""
+        out = []
+        g = A.cfg(fn, None)
+        for n in A.own_nodes(fn):
+            tg = []
+            val = None
+            if isinstance(n, ast.Assign):
+                tg, val = n.targets, n.value
+            elif isinstance(n, (ast.AugAssign, ast.AnnAssign)):
+                tg, val = [n.target], n.value
+            elif isinstance(n, ast.Delete):
+                tg = n.targets
+            for t in tg:
+                if isinstance(t, (ast.Attribute, ast.Subscript)):
+                    out.append(("store", t, val, n))
+            if isinstance(n, ast.Call) and isinstance(n.func, ast.Attribute) and n.func.attr in (
+                    "append", "extend", "insert", "pop", "remove", "clear", "sort", "reverse", "__setattr__", "update", "setdefault"):
+                recv = n.func.value
+                cns = g.nodes_of(n)
+                if isinstance(recv, ast.Name) and cns and all(_fresh_list(PV, fn, None, recv.id, cn) for cn in cns):
+                    continue
+                out.append(("mutate", recv, None, n))
+            if isinstance(n, ast.Call) and isinstance(n.func, ast.Name) and n.func.id in ("setattr", "delattr"):
+                out.append(("mutate", n, None, n))
+        return out
+
+    g = A.cfg(un, None)
+    eu = effects(un)
+    vin = [e for e in eu if e[0] == "store" and isinstance(e[1], ast.Attribute) and e[1].attr == "vin" and isinstance(e[1].value, ast.Name)]
+    other = [e for e in eu if e not in vin]
+    run.check("R1", len(vin) == 1 and not other, "_unsign_tx writes only <tx>.vin", key="_unsign_tx|writes", where=un.loc(),
+              message=f"_unsign_tx writes {[norm(e[3])[:60] for e in eu]}: anything beyond tx.vin (version, outputs, lock time) changes what the device signs")
+    p = un.params[0]
+    if len(vin) == 1:
+        _, tgt, val, st = vin[0]
+        txv = tgt.value.id
+        for cn in g.nodes_of(st):
+            forms = set()
+            for x in PV.expand_consistent(un, None, val, cn, stop=(txv,)):
+                cl_ = canon_list_text(x)
+                forms.add(tuple(cl_) if cl_ is not None else ("?" + x,))
+            want = (f"map(_clear_all_but_last_op_from_scriptsig(ELEM({txv}.vin)))",)
+            forms = {v for v in forms if not any(o != v and o[:len(v)] == v and all(x.startswith("map(") for x in o[len(v):]) for o in forms)}
+            run.check("R1", forms == {want}, "every input goes through the clearing function, in order", key="_unsign_tx|vin-expr", where=un.loc(st),
+                      message=f"tx.vin is rebuilt as {sorted(forms)}; expected one _clear_all_but_last_op_from_scriptsig(input) per input, in order")
+            d = _single_def(PV, un, None, txv, cn)
+            run.check("R1", d is not None and d.value is not None and norm(d.value) == f"_deserialize_tx({p})", "tx is the deserialised request transaction",
+                      key="_unsign_tx|tx-source", where=un.loc(), message=f"`{txv}` is not _deserialize_tx({p})")
+        rr = [n for n in A.own_nodes(un) if isinstance(n, ast.Return)]
+        okr = bool(rr)
+        for r in rr:
+            for rn in g.nodes_of(r):
+                vals = PV.expand_consistent(un, None, r.value, rn, stop=(txv,))
+                okr = okr and vals == {txv} and any(g.dominates(x, rn) for x in g.nodes_of(st))
+        run.check("R1", okr, "returns that transaction, after the rewrite", key="_unsign_tx|return", where=un.loc(),
+                  message="_unsign_tx does not return the transaction it modified (or returns before rewriting the inputs)")
+    gc = A.cfg(cl, None)
+    ec = effects(cl)
+    ssig = [e for e in ec if e[0] == "store" and isinstance(e[1], ast.Attribute) and e[1].attr == "scriptSig" and isinstance(e[1].value, ast.Name)]
+    otherc = [e for e in ec if e not in ssig]
+    run.check("R1", len(ssig) == 1 and not otherc, "clearing writes only the copy's scriptSig", key="_clear|writes", where=cl.loc(),
+              message=f"_clear_all_but_last_op_from_scriptsig writes {[norm(e[3])[:60] for e in ec]}")
+    cp = cl.params[0]
+    copyv = ssig[0][1].value.id if len(ssig) == 1 else None
+    okc = False
+    if copyv:
+        for cn in gc.nodes_of(ssig[0][3]):
+            d = _single_def(PV, cl, None, copyv, cn)
+            okc = d is not None and d.value is not None and norm(d.value) == f"bitcoin.core.CMutableTxIn.from_txin({cp})"
+    run.check("R1", okc, "the input is copied with from_txin (outpoint and sequence preserved)", key="_clear|copy", where=cl.loc(),
+              message="the object whose scriptSig is rewritten is not a bitcoin.core.CMutableTxIn.from_txin(<input>) copy: the request's own "
+                      "input would be modified, or fields such as nSequence reset to their defaults")
+    rr = [n for n in A.own_nodes(cl) if isinstance(n, ast.Return)]
+    okr = bool(rr) and copyv is not None
+    for r in rr:
+        for rn in gc.nodes_of(r):
+            okr = okr and PV.expand_consistent(cl, None, r.value, rn, stop=(copyv,)) == {copyv} \
+                and any(gc.dominates(x, rn) for x in gc.nodes_of(ssig[0][3]))
+    run.check("R1", okr, "returns the copy, after the rewrite", key="_clear|return", where=cl.loc(),
+              message="_clear_all_but_last_op_from_scriptsig does not return the modified copy")
+    gd = A.cfg(ds, None)
+    dvals = set()
+    for r in [n for n in A.own_nodes(ds) if isinstance(n, ast.Return)]:
+        for rn in gd.nodes_of(r):
+            dvals |= {_strip(x) for x in PV.expand_consistent(ds, None, r.value, rn)}
+    wantd = _strip(f"bitcoin.core.CMutableTransaction.deserialize(bytes.fromhex({ds.params[0]}))")
+    run.check("R1", dvals == {wantd}, "the whole request transaction is deserialised", key="_deserialize_tx|expr", where=ds.loc(),
+              message=f"_deserialize_tx returns {sorted(dvals)[:2]}; expected `{wantd}` (which also rejects trailing bytes)")
+
+    # ---------------------------------------------------------------- R2
+    run.rule("R2", "Shape: the new script is bitcoin.core.CScript(L) where L is len(ops)-1 copies of 0 followed by ops[-1], with ops = "
+             "list(<copy>.scriptSig) (constants folded; [0]*(n-1), a comprehension over ops[:-1] or an append are the same list); an "
+             "empty script makes ops[-1] raise (kept: it is what becomes -102); get_unsigned_tx(raw, hex) returns "
+             "_unsign_tx(raw).serialize().hex() when hex is truthy and _unsign_tx(raw).serialize() otherwise.")
+    if copyv:
+        st = ssig[0][3]
+        locs = set(PV.defs(cl, None)) | set(cl.params)
+
+        def text(e):
+            return norm(fold_consts(P, e, cl, None, locals_=locs))
+        for cn in gc.nodes_of(st):
+            got = set()
+            for x in PV.expand_consistent(cl, None, ssig[0][2], cn, stop=(copyv,)):
+                e = ast.parse(x, mode="eval").body
+                if isinstance(e, ast.Call) and norm(e.func) == "bitcoin.core.CScript" and len(e.args) == 1 and not e.keywords:
+                    segs = canon_list(e.args[0], text)
+                    got.add(tuple(segs) if segs is not None else ("?" + x,))
+                else:
+                    got.add(("?" + x,))
+            ops = f"list({copyv}.scriptSig)"
+            want = (f"rep(0, len({ops})-1)", f"item({ops}[-1])")
+            run.check("R2", got == {want}, "script = zeros for all but the last op, then the last op", key="_clear|script-expr",
+                      where=cl.loc(st), message=f"the cleared script is built as {sorted(got)[:2]}; expected CScript of {want}")
+    ggu = A.cfg(gu, None)
+    pr, ph = gu.params[0], gu.params[1] if len(gu.params) > 1 else None
+    run.require(ph is not None, "get_unsigned_tx: second parameter vanished")
+
+    def atom(e):
+        if isinstance(e, ast.Name) and e.id == ph:
+            return ("HEX", True)
+        return None
+    table = {}
+    for lf in Walker(A, gu, None, atom).walk(ggu.entry):
+        if lf.kind == "return":
+            for v in completions({k: b for k, b in lf.pc.items() if k == "HEX"}, ["HEX"]):
+                table.setdefault(v["HEX"], set()).add(_strip(norm(lf.deep(lf.node.ast.value))))
+        elif lf.kind not in ("raise",):
+            table.setdefault(None, set()).add(lf.kind)
+    wantt = {True: {_strip(f"_unsign_tx({pr}).serialize().hex()")}, False: {_strip(f"_unsign_tx({pr}).serialize()")}}
+    run.check("R2", table == wantt, "get_unsigned_tx = serialisation of the unsigned transaction (hex or raw)", key="get_unsigned_tx|expr", where=gu.loc(),
+              message=f"get_unsigned_tx returns {({k: sorted(v) for k, v in table.items()})}")
+
+
 def run(run):
     P, A = run.P, run.A
     F = Facts(A)
     PV = Prov(A)
     E = ExcAnalysis(A)
-    un = P.func("comm.bitcoin._unsign_tx")
-    cl = P.func("comm.bitcoin._clear_all_but_last_op_from_scriptsig")
-    gu = P.func("comm.bitcoin.get_unsigned_tx")
-
-    # ---------------------------------------------------------------- R1
-    run.rule("R1", "Effect confinement: _unsign_tx writes only tx.vin (= list(map(_clear_all_but_last_op_from_scriptsig, "
-             "tx.vin)) of the transaction it deserialised and returns that object; _clear_all_but_last_op_from_scriptsig "
-             "writes only <copy>.scriptSig where <copy> = bitcoin.core.CMutableTxIn.from_txin(txin) and returns the copy; "
-             "no other attribute or item of the transaction, its inputs or outputs is written on the unsign path.")
-    def attr_writes(fn):
-        out = []
-        for n in A.own_nodes(fn):
-            tg = []
-            if isinstance(n, ast.Assign):
-                tg = n.targets
-            elif isinstance(n, (ast.AugAssign, ast.AnnAssign)):
-                tg = [n.target]
-            elif isinstance(n, ast.Delete):
-                tg = n.targets
-            for t in tg:
-                if isinstance(t, (ast.Attribute, ast.Subscript)):
-                    out.append(norm(t))
-            if isinstance(n, ast.Call) and isinstance(n.func, ast.Attribute) and n.func.attr in (
-                    "append", "extend", "insert", "pop", "remove", "clear", "sort", "reverse", "__setattr__") \
-                    and not norm(n.func.value).startswith(("ops", "new_ops")):
-                out.append(norm(n) + " (mutating call)")
-            if isinstance(n, ast.Call) and isinstance(n.func, ast.Name) and n.func.id == "setattr":
-                out.append(norm(n))
-        return out
-    wu = attr_writes(un)
-    run.check("R1", wu == ["tx.vin"], "_unsign_tx writes only tx.vin", key="_unsign_tx|writes", where=un.loc(),
-              message=f"_unsign_tx writes {wu}: anything beyond tx.vin (version, outputs, lock time) changes what the device signs")
-    g = A.cfg(un, None)
-    for n in A.own_nodes(un):
-        if isinstance(n, ast.Assign) and norm(n.targets[0]) == "tx.vin":
-            run.check("R1", norm(n.value) == "list(map(_clear_all_but_last_op_from_scriptsig, tx.vin))",
-                      "every input goes through the clearing function, in order", key="_unsign_tx|vin-expr", where=un.loc(n),
-                      message=f"tx.vin is rebuilt as `{norm(n.value)}`")
-    td = defs_of(A, un, "tx")
-    p = un.params[0]
-    run.check("R1", len(td) == 1 and norm(td[0].value) == f"_deserialize_tx({p})", "tx is the deserialised request transaction",
-              key="_unsign_tx|tx-source", where=un.loc(), message="`tx` is not _deserialize_tx(raw_tx_hex)")
-    rr = [n for n in A.own_nodes(un) if isinstance(n, ast.Return)]
-    run.check("R1", len(rr) == 1 and norm(rr[0].value) == "tx", "returns that transaction", key="_unsign_tx|return", where=un.loc(),
-              message="_unsign_tx does not return the transaction it modified")
-    wc = attr_writes(cl)
-    run.check("R1", wc == ["new_txin.scriptSig"], "clearing writes only the copy's scriptSig", key="_clear|writes", where=cl.loc(),
-              message=f"_clear_all_but_last_op_from_scriptsig writes {wc}")
-    cd = defs_of(A, cl, "new_txin")
-    run.check("R1", len(cd) == 1 and norm(cd[0].value) == f"bitcoin.core.CMutableTxIn.from_txin({cl.params[0]})",
-              "the input is copied with from_txin (outpoint and sequence preserved)", key="_clear|copy", where=cl.loc(),
-              message=f"the cleared input is built as `{norm(cd[0].value) if cd else None}`, not as a from_txin copy: fields such as "
-                      "nSequence would be reset to their defaults")
-    rr = [n for n in A.own_nodes(cl) if isinstance(n, ast.Return)]
-    run.check("R1", len(rr) == 1 and norm(rr[0].value) == "new_txin", "returns the copy", key="_clear|return", where=cl.loc(),
-              message="_clear_all_but_last_op_from_scriptsig does not return the modified copy")
-    ds = P.func("comm.bitcoin._deserialize_tx")
-    des = [n for n in A.own_nodes(ds) if isinstance(n, ast.Call) and "deserialize" in norm(n.func)]
-    run.check("R1", len(des) == 1 and norm(des[0]) == f"bitcoin.core.CMutableTransaction.deserialize(bytes.fromhex({ds.params[0]}))",
-              "the whole request transaction is deserialised", key="_deserialize_tx|expr", where=ds.loc(), message="_deserialize_tx changed")
-
-    # ---------------------------------------------------------------- R2
-    run.rule("R2", "Shape: the new script is bitcoin.core.CScript([0] * (len(ops) - 1) + [ops[-1]]) with ops = "
-             "list(new_txin.scriptSig); an empty script makes ops[-1] raise (kept: it is what becomes -102).")
-    gc = A.cfg(cl, None)
-    for n in A.own_nodes(cl):
-        if isinstance(n, ast.Assign) and norm(n.targets[0]) == "new_txin.scriptSig":
-            for cn in gc.nodes_of(n):
-                got = {_strip(x) for x in PV.expand_consistent(cl, None, n.value, cn, stop=("new_txin",))}
-                want = _strip("bitcoin.core.CScript([0] * (len(list(new_txin.scriptSig)) - 1) + [list(new_txin.scriptSig)[-1]])")
-                run.check("R2", got == {want}, "script = zeros for all but the last op, then the last op", key="_clear|script-expr",
-                          where=cl.loc(n), message=f"the cleared script is {sorted(got)[:1]}; expected `{want}`")
-    rr = [n for n in A.own_nodes(gu) if isinstance(n, ast.Return)]
-    ggu = A.cfg(gu, None)
-    vals = set()
-    for r in rr:
-        for rn in ggu.nodes_of(r):
-            vals |= {_strip(x) for x in PV.expand_consistent(gu, None, r.value, rn)}
-    p = gu.params[0]
-    run.check("R2", vals == {_strip(f"_unsign_tx({p}).serialize().hex()"), _strip(f"_unsign_tx({p}).serialize()")},
-              "get_unsigned_tx = serialisation of the unsigned transaction", key="get_unsigned_tx|expr", where=gu.loc(),
-              message=f"get_unsigned_tx returns {sorted(vals)}")
+    scriptsig_rules(run, PV)
 
     # ---------------------------------------------------------------- R3
-    run.rule("R3", "Use and failure mapping in HSM2ProtocolLedger._sign: btc_tx passed to sign_authorized is the value of "
-             "get_unsigned_tx(<message>['tx']); that call lies in a handler for Exception whose body ends in "
-             "return (ERROR_CODE_INVALID_MESSAGE,); ensure_connection() and every dongle call of the authorized branch are "
-             "dominated by the call's normal completion.")
+    run.rule("R3", "Use and failure mapping in HSM2ProtocolLedger._sign: on every path to the sign_authorized call its btc_tx argument is "
+             "get_unsigned_tx(request['message']['tx']); if that call raises any Exception, every path from the handler ends in "
+             "return (ERROR_CODE_INVALID_MESSAGE,) without a device call; ensure_connection() and every dongle call of the "
+             "authorized branch are dominated by the call's normal completion.")
     V2 = P.cls("ledger.protocol.HSM2ProtocolLedger")
     sg = P.method(V2, "_sign")
     g = A.cfg(sg, V2)
@@ -125,29 +216,44 @@ def run(run):
     btc = [k.value for k in sa[0].keywords if k.arg == "btc_tx"]
     run.require(len(btc) == 1, "_sign: btc_tx keyword vanished")
     for cn in g.nodes_of(sa[0]):
-        got = {_strip(x) for x in PV.expand_consistent(sg, V2, btc[0], cn, stop=("msg", "request"))}
-        ok = got in ({_strip("get_unsigned_tx(msg['tx'])")}, {_strip("get_unsigned_tx(request['message']['tx'])")})
-        run.check("R3", ok, "the device receives the unsigned transaction", key="_sign|btc_tx-source", where=sg.loc(sa[0]),
-                  message=f"sign_authorized is given btc_tx = {sorted(got)[:1]}: the transaction relayed for signing is not "
+        try:
+            got = {_strip(x) for x in values_at(A, sg, V2, cn, btc[0])}
+        except AnalysisError:
+            got = {_strip(x) for x in PV.expand_consistent(sg, V2, btc[0], cn, stop=("request",))}
+        run.check("R3", got == {_strip("get_unsigned_tx(request['message']['tx'])")}, "the device receives the unsigned transaction",
+                  key="_sign|btc_tx-source", where=sg.loc(sa[0]),
+                  message=f"sign_authorized is given btc_tx = {sorted(got)[:2]}: the transaction relayed for signing is not "
                           "get_unsigned_tx(message.tx)")
-    md = defs_of(A, sg, "msg")
-    run.check("R3", len(md) == 1 and norm(md[0].value) == "request['message']", "msg is the request's message", key="_sign|msg-source",
-              where=sg.loc(), message="`msg` is not request['message']")
     gut = find_calls(A, sg, "get_unsigned_tx")
     run.require(len(gut) == 1, "_sign: get_unsigned_tx call vanished")
     par = _parents(sg.node)
     tr, h = catching_handler(E, par, gut[0], sg, V2, "Exception")
-    okh = h is not None and isinstance(h.body[-1], ast.Return) and isinstance(h.body[-1].value, ast.Tuple) \
-        and len(h.body[-1].value.elts) == 1
-    if okh:
-        okv, v = try_fold(P, h.body[-1].value.elts[0], sg, V2)
-        okh = okv and v == P.class_const(V2, "ERROR_CODE_INVALID_MESSAGE") and not any(isinstance(x, ast.Raise) for x in ast.walk(h))
-    run.check("R3", bool(okh), "any decoding failure is answered (ERROR_CODE_INVALID_MESSAGE,)", key="_sign|get_unsigned_tx|handler",
-              where=sg.loc(gut[0]), message="get_unsigned_tx() is not guarded by a handler for Exception that returns "
-              "(ERROR_CODE_INVALID_MESSAGE,): an undecodable transaction or an input with an empty script (IndexError, "
-              "script decoding errors) would not be answered -102")
     dev = device_touching(run)
     ens = P.method(V2, "ensure_connection")
+    okh = h is not None
+    why = "get_unsigned_tx() is not inside a handler for Exception"
+    if okh:
+        want_code = P.class_const(V2, "ERROR_CODE_INVALID_MESSAGE")
+        for hn in g.nodes_of(h):
+            for lf in Walker(A, sg, V2, lambda e: None).walk(hn):
+                if lf.kind != "return":
+                    okh, why = False, f"a path from the handler ends in `{lf.kind}` at line {lf.node.lineno}"
+                    continue
+                v = lf.deep(lf.node.ast.value) if lf.node.ast.value is not None else None
+                okv = isinstance(v, ast.Tuple) and len(v.elts) == 1
+                if okv:
+                    okf, val = try_fold(P, v.elts[0], sg, V2)
+                    okv = okf and val == want_code
+                if not okv:
+                    okh, why = False, f"a path from the handler returns `{norm(v) if v is not None else None}`"
+                for kind, st, val in lf.effects:
+                    for c in ([n for n in ast.walk(st) if isinstance(n, ast.Call)] if isinstance(st, ast.AST) else []):
+                        cs = A.resolve_call(c, sg, V2)
+                        if any(x.fn is not None and (x.fn.qualname in dev or x.fn is ens) for x in cs):
+                            okh, why = False, f"a path from the handler reaches the device (`{norm(c)[:40]}`)"
+    run.check("R3", bool(okh), "any decoding failure is answered (ERROR_CODE_INVALID_MESSAGE,)", key="_sign|get_unsigned_tx|handler",
+              where=sg.loc(gut[0]), message=f"{why}: an undecodable transaction or an input with an empty script (IndexError, "
+              "script decoding errors) would not be answered -102")
     for call, cs in A.callees(sg, V2):
         if not any(c.fn is not None and (c.fn.qualname in dev or c.fn is ens) for c in cs):
             continue
@@ -156,8 +262,20 @@ def run(run):
             if hashed:
                 continue
             dom = any(g.dominates(x, cn) for x in g.nodes_of(gut[0]))
+            if not dom:
+                # the decoding may sit in a helper that reports failure through its result: decide on feasible paths
+                try:
+                    dom, _w = completed_on_all_paths(A, sg, V2, cn, gut[0])
+                except AnalysisError:
+                    pass
             # and not reachable from the decoding handler
             from_h = any(cn in g.reachable(hn) for hh in (tr.handlers if tr else []) for hn in g.nodes_of(hh))
+            if from_h:
+                try:
+                    from_h = any(lf.kind == "stop" for hh in tr.handlers for hn in g.nodes_of(hh)
+                                 for lf in Walker(A, sg, V2, lambda e: None, follow_exc=True).walk(hn, stops={cn}))
+                except AnalysisError:
+                    pass
             run.check("R3", dom and not from_h, f"`{norm(call.func)}` only after the transaction decoded",
                       key=f"_sign|{norm(call.func)}|before-decode", where=sg.loc(call),
                       message=f"in the authorized branch `{norm(call)[:50]}` is not dominated by the completed "
